@@ -2,7 +2,7 @@
    Directives: ExtrOcamlBasic only; N/Z/positive stay Coq's datatypes. *)
 Require Extraction.
 Require Import ExtrOcamlBasic.
-From OrdV Require Import Base.Prelude Codec.Storage.
+From OrdV Require Import Base.Prelude Codec.Storage Server.Settings.
 Cd "../extract/gen".
-Extraction "x_storage.ml" run_C35.
+Extraction "x_storage.ml" run_C35 run_C36.
 Cd "../../coq".
